@@ -4,6 +4,7 @@ use std::mem::MaybeUninit;
 pub mod verif;
 
 /// Internal data holder, heavily unsage, do not use it directly.
+#[cfg_attr(feature = "verif-hooks", repr(C))]
 pub struct RecordMaybeUninit<const CAP: usize> {
     data: [MaybeUninit<u8>; CAP],
     #[cfg(feature = "verif-hooks")]
